@@ -33,6 +33,17 @@ def Addr.esc : Addr → Option Nat
   | .vest a => some a
   | _ => none
 
+theorem esc_ne_sell {x : Addr} {i j : Nat} (hx : x.esc = some j) (hj : j ≠ i) : x ≠ .sell i := by
+  intro e; subst e; simp [Addr.esc] at hx; exact hj hx.symm
+theorem esc_ne_pay {x : Addr} {i j : Nat} (hx : x.esc = some j) (hj : j ≠ i) : x ≠ .pay i := by
+  intro e; subst e; simp [Addr.esc] at hx; exact hj hx.symm
+theorem esc_ne_vest {x : Addr} {i j : Nat} (hx : x.esc = some j) (hj : j ≠ i) : x ≠ .vest i := by
+  intro e; subst e; simp [Addr.esc] at hx; exact hj hx.symm
+theorem esc_ne_user {x : Addr} {j : Nat} {u : Acc} (hx : x.esc = some j) : x ≠ .user u := by
+  intro e; subst e; simp [Addr.esc] at hx
+theorem esc_ne_pool {x : Addr} {j : Nat} (hx : x.esc = some j) : x ≠ .pool := by
+  intro e; subst e; simp [Addr.esc] at hx
+
 theorem move_zero (b : Bank) (src dst : Addr) (d : Denom) : b.move src dst d 0 = b := by
   funext a d'
   simp [Bank.move]
@@ -84,6 +95,17 @@ theorem send_mk {c0 c c' : Ctx} {k : XKind} {src dst : Addr} {d : Denom} {amt : 
   obtain ⟨b', hb, hs⟩ := bankCall_core h2
   rw [sendCoins_mk hb] at hs
   exact ⟨hnn, hs⟩
+
+/-- a bank call with one explicit coin -/
+theorem send_single {c c' : Ctx} {k : XKind} {src dst : Addr} {d : Denom} {amt : Int}
+    (h : c.bankCall k src dst [⟨d, amt⟩] = .ok c') :
+    c'.s = { c.s with bank := c.s.bank.move src dst d amt } := by
+  obtain ⟨b', hb, hs⟩ := bankCall_core h
+  rw [sendCoins_single] at hb
+  by_cases hlt : c.s.bank src d < amt
+  · simp [hlt] at hb
+  · simp only [hlt, if_false, Option.some.injEq] at hb
+    rw [← hb] at hs; exact hs
 
 /-- a fee payment (user → pool, any coins): no escrow is touched -/
 theorem fee_core {c c' : Ctx} {k : XKind} {u : Acc} {coins : List Coin}
@@ -159,10 +181,24 @@ structure Local (i : Nat) (s s' : Core) : Prop where
   views : ∀ j, j ≠ i → s'.views[j]? = s.views[j]?
   bank : ∀ x j, x.esc = some j → j ≠ i → ∀ d, s'.bank x d = s.bank x d
 
-/-- a successful operation on auction `i` -/
+/-- a successful operation on auction `i` (whose record is well formed) -/
 def Good (i : Nat) (s s' : Core) : Prop :=
-  Local i s s' ∧ ∃ v, s.views[i]? = some v ∧
-    (ViewWF i v → ∃ v', s'.views[i]? = some v' ∧ Keeps s s' i v v')
+  ∃ v, s.views[i]? = some v ∧
+    (ViewWF i v → Local i s s' ∧ ∃ v', s'.views[i]? = some v' ∧ Keeps s s' i v v')
+
+theorem Keeps.trans {s s' s'' : Core} {i : Nat} {v v' v'' : AView} (k1 : Keeps s s' i v v')
+    (k2 : Keeps s' s'' i v' v'') : Keeps s s'' i v v'' := by
+  refine ⟨k2.sd.trans k1.sd, k2.pd.trans k1.pd, fun d => ?_, fun d => ?_, fun d => ?_⟩
+  · have := k1.sell d; have := k2.sell d; omega
+  · have := k1.pay d; have := k2.pay d; omega
+  · have := k1.vest d; have := k2.vest d; omega
+
+theorem Local.trans {s s' s'' : Core} {i : Nat} (l1 : Local i s s') (l2 : Local i s' s'') :
+    Local i s s'' :=
+  ⟨l2.len.trans l1.len, fun j hj => (l2.views j hj).trans (l1.views j hj),
+   fun x j hx hj d => (l2.bank x j hx hj d).trans (l1.bank x j hx hj d)⟩
+
+theorem Local.refl (i : Nat) (s : Core) : Local i s s := ⟨rfl, fun _ _ => rfl, fun _ _ _ _ _ => rfl⟩
 
 def AllCov (s : Core) : Prop := ∀ i v, s.views[i]? = some v → EscrowCovered s i v
 
@@ -184,11 +220,11 @@ theorem escrowExact_frame {s s' : Core} {j : Nat} {v : AView}
 
 theorem Good.allCov {i : Nat} {s s' : Core} (g : Good i s s')
     (hwf : ∀ v, s.views[i]? = some v → ViewWF i v) (h : AllCov s) : AllCov s' := by
-  obtain ⟨l, v, hv, hk⟩ := g
+  obtain ⟨v, hv, hk⟩ := g
+  obtain ⟨l, v', hv', k⟩ := hk (hwf v hv)
   intro j w hj
   by_cases hji : j = i
   · subst hji
-    obtain ⟨v', hv', k⟩ := hk (hwf v hv)
     rw [hv'] at hj
     cases hj
     exact k.covered (h j v hv)
@@ -197,12 +233,12 @@ theorem Good.allCov {i : Nat} {s s' : Core} (g : Good i s s')
 
 theorem Good.allEx {i : Nat} {s s' : Core} (g : Good i s s')
     (hwf : ∀ v, s.views[i]? = some v → ViewWF i v) (h : AllEx s) : AllEx s' := by
-  obtain ⟨l, v, hv, hk⟩ := g
+  obtain ⟨v, hv, hk⟩ := g
+  obtain ⟨l, v', hv', k⟩ := hk (hwf v hv)
   refine ⟨?_, ?_⟩
   · intro j w hj
     by_cases hji : j = i
     · subst hji
-      obtain ⟨v', hv', k⟩ := hk (hwf v hv)
       rw [hv'] at hj
       cases hj
       exact k.exact (h.1 j v hv)
@@ -238,27 +274,101 @@ theorem allEx_of_same {s s' : Core} (hv : s'.views = s.views)
 
 /-- the usual shape of a handler's result: view `i` replaced, bank changed away from the
     escrows of other auctions -/
-theorem good_of_set {s s' : Core} {i : Nat} {v v' : AView} (hv : s.views[i]? = some v)
+theorem good_of_set_wf {s s' : Core} {i : Nat} {v v' : AView} (hv : s.views[i]? = some v)
     (hviews : s'.views = s.views.set i v')
-    (hbank : ∀ x j, x.esc = some j → j ≠ i → ∀ d, s'.bank x d = s.bank x d)
-    (hk : ViewWF i v → Keeps s s' i v v') : Good i s s' := by
+    (h : ViewWF i v → (∀ x j, x.esc = some j → j ≠ i → ∀ d, s'.bank x d = s.bank x d) ∧
+      Keeps s s' i v v') : Good i s s' := by
   have hi : i < s.views.length := by
     rcases Nat.lt_or_ge i s.views.length with h1 | h1
     · exact h1
     · rw [List.getElem?_eq_none h1] at hv; cases hv
-  refine ⟨⟨?_, ?_, hbank⟩, v, hv, fun hw => ⟨v', ?_, hk hw⟩⟩
+  refine ⟨v, hv, fun hw => ⟨⟨?_, ?_, (h hw).1⟩, v', ?_, (h hw).2⟩⟩
   · rw [hviews, List.length_set]
   · intro j hj
     rw [hviews, List.getElem?_set_ne (Ne.symm hj)]
   · rw [hviews, List.getElem?_set_self hi]
 
+theorem good_of_set {s s' : Core} {i : Nat} {v v' : AView} (hv : s.views[i]? = some v)
+    (hviews : s'.views = s.views.set i v')
+    (hbank : ∀ x j, x.esc = some j → j ≠ i → ∀ d, s'.bank x d = s.bank x d)
+    (hk : ViewWF i v → Keeps s s' i v v') : Good i s s' :=
+  good_of_set_wf hv hviews (fun w => ⟨hbank, hk w⟩)
+
+theorem local_of_set {s s' : Core} {i : Nat} {v v' : AView} (hv : s.views[i]? = some v)
+    (hviews : s'.views = s.views.set i v')
+    (hbank : ∀ x j, x.esc = some j → j ≠ i → ∀ d, s'.bank x d = s.bank x d) :
+    Local i s s' ∧ s'.views[i]? = some v' := by
+  have hi : i < s.views.length := by
+    rcases Nat.lt_or_ge i s.views.length with h1 | h1
+    · exact h1
+    · rw [List.getElem?_eq_none h1] at hv; cases hv
+  refine ⟨⟨?_, ?_, hbank⟩, ?_⟩
+  · rw [hviews, List.length_set]
+  · intro j hj
+    rw [hviews, List.getElem?_set_ne (Ne.symm hj)]
+  · rw [hviews, List.getElem?_set_self hi]
+
+/-- the records that enter the owed amounts and the escrow balances are unchanged -/
+theorem keeps_of_eq {s s' : Core} {i : Nat} {v v' : AView}
+    (hbank : ∀ x, x.esc = some i → ∀ d, s'.bank x d = s.bank x d)
+    (hst : v'.a.status = v.a.status) (hsd : v'.a.sellDenom = v.a.sellDenom)
+    (hpd : v'.a.payDenom = v.a.payDenom) (hsa : v'.a.sellAmt = v.a.sellAmt)
+    (hr : reservedTotal v' = reservedTotal v) (hu : unreleasedTotal v' = unreleasedTotal v) :
+    Keeps s s' i v v' := by
+  refine ⟨hsd, hpd, ?_, ?_, ?_⟩
+  · intro d; left
+    simp only [slackSell, owedSell, hbank (.sell i) rfl, hst, hsd, hsa]
+  · intro d; left
+    simp only [slackPay, owedPay, hbank (.pay i) rfl, hst, hpd, hr]
+  · intro d; left
+    simp only [slackVest, owedVest, hbank (.vest i) rfl, hst, hpd, hu]
+
 /-- nothing relevant changed -/
 theorem good_of_same {s s' : Core} {i : Nat} {v : AView} (hv : s.views[i]? = some v)
     (hviews : s'.views = s.views) (hbank : s'.bank = s.bank) : Good i s s' := by
-  refine ⟨⟨by rw [hviews], fun j _ => by rw [hviews], fun x j _ _ d => by rw [hbank]⟩, v, hv,
-    fun _ => ⟨v, by rw [hviews]; exact hv, ⟨rfl, rfl, ?_, ?_, ?_⟩⟩⟩
-  · intro d; left; simp only [slackSell, hbank]
-  · intro d; left; simp only [slackPay, hbank]
-  · intro d; left; simp only [slackVest, hbank]
+  refine ⟨v, hv, fun _ => ⟨⟨by rw [hviews], fun j _ => by rw [hviews], fun x j _ _ d => by rw [hbank]⟩,
+    v, by rw [hviews]; exact hv,
+    keeps_of_eq (fun x _ d => by rw [hbank]) rfl rfl rfl rfl rfl rfl⟩⟩
+
+/-! ### a new auction appended -/
+
+theorem allCov_append {s s' : Core} {v : AView} (hviews : s'.views = s.views ++ [v])
+    (hbank : ∀ x j, x.esc = some j → j ≠ s.views.length → ∀ d, s'.bank x d = s.bank x d)
+    (hnew : EscrowCovered s' s.views.length v) (h : AllCov s) : AllCov s' := by
+  intro j w hj
+  rw [hviews] at hj
+  rcases Nat.lt_trichotomy j s.views.length with hlt | heq | hgt
+  · rw [List.getElem?_append_left hlt] at hj
+    exact escrowCovered_frame (fun x hx d => hbank x j hx (by omega) d) (h j w hj)
+  · subst heq
+    rw [List.getElem?_append_right (Nat.le_refl _)] at hj
+    simp at hj
+    subst hj
+    exact hnew
+  · rw [List.getElem?_eq_none (by simp; omega)] at hj
+    cases hj
+
+theorem allEx_append {s s' : Core} {v : AView} (hviews : s'.views = s.views ++ [v])
+    (hbank : ∀ x j, x.esc = some j → j ≠ s.views.length → ∀ d, s'.bank x d = s.bank x d)
+    (hnew : EscrowExact s' s.views.length v) (h : AllEx s) : AllEx s' := by
+  refine ⟨?_, ?_⟩
+  · intro j w hj
+    rw [hviews] at hj
+    rcases Nat.lt_trichotomy j s.views.length with hlt | heq | hgt
+    · rw [List.getElem?_append_left hlt] at hj
+      exact escrowExact_frame (fun x hx d => hbank x j hx (by omega) d) (h.1 j w hj)
+    · subst heq
+      rw [List.getElem?_append_right (Nat.le_refl _)] at hj
+      simp at hj
+      subst hj
+      exact hnew
+    · rw [List.getElem?_eq_none (by simp; omega)] at hj
+      cases hj
+  · intro j hj d
+    rw [hviews] at hj
+    simp at hj
+    have hne : j ≠ s.views.length := by omega
+    rw [hbank (.sell j) j rfl hne, hbank (.pay j) j rfl hne, hbank (.vest j) j rfl hne]
+    exact h.2 j (by omega) d
 
 end Fundraising
